@@ -21,6 +21,8 @@ func init() {
 	gens["C19"] = genC19
 	execs["cost"] = execCost
 	execs["servetime"] = execServeTime
+	execs["servecost"] = execServeCost
+	isolatedOps["servecost"] = true
 	isolatedOps["servetime"] = true
 }
 
@@ -170,6 +172,26 @@ func genC19(cfg Config, emit Emit) error {
 			emit("servetime", []string{mustJSON(w)}, fmt.Sprintf("served-chain/%v", failing), true)
 		}
 	}
+	// the same count through a server (one validation per invocation, whatever its outcome), and shared
+	// proof DAGs that succeed answered promptly
+	for _, failing := range []bool{true, false} {
+		for d := 1; d <= 8; d++ {
+			for _, wd := range []int{1, 2} {
+				w := layeredWorld(wd, d, failing, 1)
+				w.Services = []ASvc{{Can: w.Desc.Can, Result: "ok"}}
+				w.Invs = []int{w.Inv}
+				emit("servecost", []string{mustJSON(w)}, fmt.Sprintf("served-cost/w%d/%v", wd, failing), true)
+			}
+		}
+	}
+	for _, wd := range []int{2, 3, 4} {
+		for _, d := range []int{6, 8, 10} {
+			w := layeredWorld(wd, d, false, 1)
+			w.Services = []ASvc{{Can: w.Desc.Can, Result: "ok"}}
+			w.Invs = []int{w.Inv}
+			emit("servetime", []string{mustJSON(w)}, "served-dag/ok", true)
+		}
+	}
 	maxD := 9
 	if cfg.Thorough() {
 		maxD = 12
@@ -275,4 +297,31 @@ func execServeTime(a []string) (res Result) {
 	case <-time.After(15 * time.Second):
 		return Result{Impl: "slow", Oracle: fmt.Sprintf("fail:C19-time a request carrying %d delegations kept the server busy for more than 15 s", len(w.Tokens))}
 	}
+}
+
+// execServeCost: signature verifications when the invocation is served rather than validated directly
+func execServeCost(a []string) (res Result) {
+	var w AWorld
+	if err := json.Unmarshal([]byte(a[0]), &w); err != nil {
+		return Result{Impl: "bad-world"}
+	}
+	cw, err := Concretise(&w)
+	if err != nil {
+		return Result{Impl: "concretise-error:" + err.Error()}
+	}
+	var n int64
+	cw.counter = &n
+	log := &runLog{}
+	var calls []handlerCall
+	var mu sync.Mutex
+	srv, err := cw.buildServer(log, &calls, &mu, nil)
+	if err != nil {
+		return Result{Impl: "server-error:" + err.Error()}
+	}
+	st, _ := cw.serveBatch(srv, &calls)
+	out := "fail"
+	if len(st) > 0 && strings.HasPrefix(st[0], "ok") {
+		out = "ok"
+	}
+	return Result{Args: []string{mustJSON(&w)}, Impl: fmt.Sprintf("%s:%d", out, n)}
 }
